@@ -248,4 +248,61 @@ Chosen(g, n0, bits, extra) ==
         vs    == Visits(n0, order, bits, extra)
         vc    == [k \in DOMAIN vs |-> <<vs[k], LayerCost(g, vs[k], bits)>>]
     IN  BestAlong(vc, n0, LayerCost(g, n0, bits))
+
+(***************************************************************************)
+(* 4. Sampling life cycle of a per-channel MPS model before a refinement.  *)
+(* optimize_prec_assignment reads the per-precision channel counts from    *)
+(* theta_alpha (the SAMPLED coefficients) and the scores from alpha.  What *)
+(* theta_alpha holds depends on the sampling options and on the calls made *)
+(* before; the result of the refinement must not (history independence):   *)
+(* it must be the result on a fresh model with the same alpha, i.e. the    *)
+(* refinement has to see the plain arg-max of the CURRENT alpha.           *)
+(* st = [train, hard, gumbel, disable, temp, fwd, th]                      *)
+(*   fwd : a forward pass happened since alpha was last written            *)
+(*   th  : [kind, cur]  kind of sample held by theta_alpha                 *)
+(*         "soft" soft-max, "hot" plain arg-max (one-hot), "gsoft"/"ghot"  *)
+(*         soft / hard Gumbel sample (noisy); cur = computed from the      *)
+(*         alpha the model holds now                                       *)
+(***************************************************************************)
+LifeActions == {"train", "eval", "fwd", "hard1", "hard0", "gumbel1", "gumbel0",
+                "dis1", "dis0", "temp_low", "temp_one", "write"}
+
+\* a model just built (the constructor samples soft-max coefficients of the default alpha in
+\* training mode) whose alpha was then overwritten with searched values
+LifeInit == [train |-> TRUE, hard |-> FALSE, gumbel |-> FALSE, disable |-> FALSE, temp |-> "one",
+             fwd |-> FALSE, th |-> [kind |-> "soft", cur |-> FALSE]]
+
+\* MPSBaseQtz.sample_alpha as selected by update_softmax_options (sample_alpha_none / _gs / _sm)
+Sampled(st) ==
+    IF st.disable THEN st.th
+    ELSE IF st.gumbel /\ st.train THEN [kind |-> IF st.hard THEN "ghot" ELSE "gsoft", cur |-> TRUE]
+    ELSE [kind |-> IF st.hard \/ ~st.train THEN "hot" ELSE "soft", cur |-> TRUE]
+
+LifeStep(st, a) ==
+    CASE a = "train"    -> [st EXCEPT !.train = TRUE]
+      [] a = "eval"     -> [st EXCEPT !.train = FALSE]
+      [] a = "fwd"      -> [st EXCEPT !.th = Sampled(st), !.fwd = TRUE]
+      [] a = "hard1"    -> [st EXCEPT !.hard = TRUE]
+      [] a = "hard0"    -> [st EXCEPT !.hard = FALSE]
+      [] a = "gumbel1"  -> [st EXCEPT !.gumbel = TRUE]
+      [] a = "gumbel0"  -> [st EXCEPT !.gumbel = FALSE]
+      [] a = "dis1"     -> [st EXCEPT !.disable = TRUE]
+      [] a = "dis0"     -> [st EXCEPT !.disable = FALSE]
+      [] a = "temp_low" -> [st EXCEPT !.temp = "low"]
+      [] a = "temp_one" -> [st EXCEPT !.temp = "one"]
+      [] a = "write"    -> [st EXCEPT !.th.cur = FALSE, !.fwd = FALSE]
+
+RECURSIVE LifeRun(_, _, _)
+LifeRun(st, hist, i) == IF i > Len(hist) THEN st ELSE LifeRun(LifeStep(st, hist[i]), hist, i + 1)
+
+\* the state in which the refinement reads theta_alpha (after its own preparation + dummy forward)
+\*   "explicit": update_softmax_options(hard=True, gumbel=False, disable_sampling=False)  (current tree)
+\*   "hardOnly": update_softmax_options(hard=True) with unspecified options kept
+\*   "evalMode": model.eval() around the dummy forwards, options untouched
+RefinePrepared(impl, st) ==
+    LET p == CASE impl = "explicit" -> [st EXCEPT !.hard = TRUE, !.gumbel = FALSE, !.disable = FALSE]
+               [] impl = "hardOnly" -> [st EXCEPT !.hard = TRUE]
+               [] impl = "evalMode" -> [st EXCEPT !.train = FALSE]
+    IN  LifeStep(p, "fwd")
+SeesArgmax(st) == st.th = [kind |-> "hot", cur |-> TRUE]
 =============================================================================
